@@ -42,6 +42,11 @@ func (e *Engine) verifyFunc(fn *ssa.Function) (u *Unit) {
 	for i, p := range fn.Params {
 		n := u.declare("p."+p.Name(), u.sorts.sortOf(p.Type()))
 		fr.assumeWF(p.Type(), n, st, "true")
+		if e.wrap64[fn] {
+			if bits, uns := intBits(p.Type()); bits == 64 && !uns {
+				u.assume("true", fmt.Sprintf("(and (<= (- 9223372036854775808) %s) (<= %s 9223372036854775807))", n, n))
+			}
+		}
 		params = append(params, &Val{t: n})
 		u.addValue(p.Name(), n)
 		if i == 0 && fn.Signature.Recv() != nil {
@@ -77,7 +82,7 @@ func (e *Engine) verifyFunc(fn *ssa.Function) (u *Unit) {
 	if ct != nil {
 		for _, r := range ct.Requires {
 			if r.Fn == nil {
-				e.stale = append(e.stale, "clause without function: "+r.Label)
+				u.oblige(fr.obName("stale", r.Label), "stale", r.Tags, "true", "false", fr.pos(fn.Pos()), "stale precondition (no longer type-checks): "+r.Text+" -- "+e.broken[r.FnName])
 				continue
 			}
 			u.assume("true", fr.evalSpec(r, params, st, nil))
@@ -94,7 +99,7 @@ func (e *Engine) verifyFunc(fn *ssa.Function) (u *Unit) {
 				continue
 			}
 			if c.Fn == nil {
-				e.stale = append(e.stale, "clause without function: "+c.Label)
+				u.oblige(fr.obName("ensures", c.Label), "ensures", c.Tags, "true", "false", fr.pos(fn.Pos()), "stale clause (no longer type-checks against the code): "+c.Text+" -- "+e.broken[c.FnName])
 				continue
 			}
 			if len(fr.rets) <= 1 || c.Merged {
@@ -114,6 +119,11 @@ func (e *Engine) verifyFunc(fn *ssa.Function) (u *Unit) {
 			if cl.Loop > len(fr.loops) {
 				e.stale = append(e.stale, fmt.Sprintf("%s: invariant %s names loop %d but the function has %d loops", funcName(fn), cl.Label, cl.Loop, len(fr.loops)))
 				u.oblige(fr.obName("inv-init", fmt.Sprintf("loop%d.%s", cl.Loop, cl.Label)), "inv-init", cl.Tags, "true", "false", fr.pos(fn.Pos()), "loop not found: "+cl.Text)
+			}
+		}
+		for _, cl := range ct.Loops {
+			if cl.Fn == nil {
+				u.oblige(fr.obName("inv-init", fmt.Sprintf("loop%d.%s", cl.Loop, cl.Label)), "inv-init", cl.Tags, "true", "false", fr.pos(fn.Pos()), "stale invariant (no longer type-checks): "+cl.Text)
 			}
 		}
 		for _, cl := range ct.Asserts {
@@ -165,7 +175,7 @@ func (fr *frame) callSiteAsserts(call ssa.CallInstruction, args []*Val, st *Stat
 	c := call.Common()
 	labels := calleeLabel(fr, c)
 	for _, cl := range fr.contract.Asserts {
-		if cl.AtStore {
+		if cl.AtStore || cl.AtReturn {
 			continue
 		}
 		match := false
@@ -383,7 +393,7 @@ func (fr *frame) storeSiteAsserts(x *ssa.Store, st *State, reach string) {
 		return
 	}
 	for _, cl := range fr.contract.Asserts {
-		if !cl.AtStore || cl.Callee != name || cl.Fn == nil {
+		if !cl.AtStore || cl.AtReturn || cl.Callee != name || cl.Fn == nil {
 			continue
 		}
 		if cl.Ordinal > 0 {
@@ -419,6 +429,50 @@ func (fr *frame) storeSiteAsserts(x *ssa.Store, st *State, reach string) {
 			sargs = append(sargs, lv)
 		}
 		if !ok {
+			continue
+		}
+		t := fr.evalSpec(cl, sargs, st, nil)
+		fr.u.oblige(fr.obName("assert", cl.Label), "assert", cl.Tags, reach, t, fr.pos(x.Pos()), cl.Text)
+		fr.u.assertsSeen[cl.Label] = true
+	}
+}
+
+
+// returnSiteAsserts: assert@return #n uses ... label: expr  -- anchored at the n-th return statement.
+func (fr *frame) returnSiteAsserts(x *ssa.Return, st *State, reach string) {
+	if fr.depth != 0 || fr.contract == nil || fr.pure {
+		return
+	}
+	for _, cl := range fr.contract.Asserts {
+		if !cl.AtReturn || cl.Fn == nil {
+			continue
+		}
+		if cl.Ordinal > 0 {
+			var sites []*ssa.Return
+			for _, b := range fr.fn.Blocks {
+				for _, in := range b.Instrs {
+					if r, ok := in.(*ssa.Return); ok {
+						sites = append(sites, r)
+					}
+				}
+			}
+			sort.Slice(sites, func(i, j int) bool { return sites[i].Pos() < sites[j].Pos() })
+			if cl.Ordinal > len(sites) || sites[cl.Ordinal-1] != x {
+				continue
+			}
+		}
+		sargs := append([]*Val{}, fr.params...)
+		ok := true
+		for _, ln := range cl.VarLocal {
+			lv := fr.localNamed(ln, x, st)
+			if lv == nil {
+				fr.u.eng.stale = append(fr.u.eng.stale, "assert@return "+cl.Label+": local "+ln+" not found")
+				ok = false
+				break
+			}
+			sargs = append(sargs, lv)
+		}
+		if !ok || len(sargs) != len(cl.Fn.Params) {
 			continue
 		}
 		t := fr.evalSpec(cl, sargs, st, nil)
